@@ -27,6 +27,11 @@ ASSUMPTIONS = ['lookback distances are positive integers (0 and negative distanc
                'the model follows note_seq with the two C08 fixes (notes/C08-fix-1.diff, notes/C08-fix-2.diff; committed to /repo)',
                'OptionalEventSequenceEncoder / MultipleEventSequenceEncoder (op wrappers) are checked on the implementation only']
 EXHAUSTIVE = {'quick': False, 'thorough': True}
+# ConditionalEventSequenceEncoderDecoder.get_inputs_batch builds its "different number of sequences" message with
+# len(a, len(b)) and so raises TypeError instead of the documented ValueError (notes/C08-fix-3.diff).  The clause that
+# demands ValueError there is switched on once that fix is in /repo (it is outside C08's statement, which speaks about
+# labels, inputs, encode and the generation loop; reported as a separate defect).
+CHECK_CONDITIONAL_BATCH_COUNT_ERROR = False
 
 NO_EVENT, NOTE_OFF = -2, -1
 T_ON, T_OFF, T_SHIFT, T_VEL, T_DUR = 1, 2, 3, 4, 5
@@ -122,43 +127,109 @@ class _H(object):
         self.ed, self.ncls, self.ev_in, self.ev_out, self.lab_in, self.lab_out = ed, ncls, ev_in, ev_out, lab_in, lab_out
 
 
+# Documented defaults of the constructor arguments (signature / docstring), used when a case leaves an argument out
+# (None in the case's cfg): the expectation is derived from these REQUESTED values, never read back from the object.
+DEFAULT_LOOKBACKS = [16, 32]            # "default lookback distances": one and two bars of DEFAULT_STEPS_PER_BAR
+DEFAULTS = {
+    'lookback_mel': {'ds': DEFAULT_LOOKBACKS, 'bits': 5},
+    'lookback_perf': {'ds': DEFAULT_LOOKBACKS, 'bits': 5, 'nb': 0, 'ms': 100, 'minp': 0, 'maxp': 127},
+    'keymelody': {'ds': DEFAULT_LOOKBACKS, 'bits': 7},
+    'onehot_perf': {'nb': 0, 'ms': 100, 'minp': 0, 'maxp': 127},
+    'modulo_perf': {'nb': 0, 'ms': 100},
+    'noteperf': {'msh': 1000, 'mdu': 1000, 'minp': 0, 'maxp': 127},
+    'noteperf_cfg': {'msh': 1000, 'mdu': 1000, 'minp': 0, 'maxp': 127},
+    'pianoroll': {'size': 88},
+    'conditional': {'ds': DEFAULT_LOOKBACKS, 'bits': 5},
+    'wrappers': {'ds': DEFAULT_LOOKBACKS, 'bits': 5},
+}
+
+
+def _eff_case(case):
+    """The case with every omitted (None) constructor argument replaced by its documented default; the names of the
+    omitted arguments are kept in cfg['_none'] so that the real constructor is called WITHOUT them."""
+    op, a = case['op'], case['input']
+    c = a['cfg']
+    if '_none' in c:
+        return case
+    none = sorted(k for k, v in c.items() if v is None)
+    c2 = dict(c)
+    for k in none:
+        v = DEFAULTS[op][k]
+        c2[k] = list(v) if isinstance(v, list) else v
+    c2['_none'] = none
+    return {'op': op, 'input': dict(a, cfg=c2)}
+
+
+def _kw(c, **names):
+    """keyword arguments for the real constructor: only those the case specifies."""
+    out = {}
+    for arg, key in names.items():
+        if key in c and key not in c.get('_none', ()):
+            v = c[key]
+            out[arg] = list(v) if isinstance(v, list) else v
+    return out
+
+
 def _handle(op, c):
     from note_seq import encoder_decoder as ed, melody_encoder_decoder as med
     from note_seq import performance_encoder_decoder as ped, pianoroll_encoder_decoder as pred
+    perf = lambda: ped.PerformanceOneHotEncoding(**_kw(c, num_velocity_bins='nb', max_shift_steps='ms',
+                                                       min_pitch='minp', max_pitch='maxp'))
+    lbkw = _kw(c, lookback_distances='ds', binary_counter_bits='bits')
+    ds_req = list(lbkw['lookback_distances']) if 'lookback_distances' in lbkw else None
     if op == 'onehot_mel':
         e = ed.OneHotEventSequenceEncoderDecoder(med.MelodyOneHotEncoding(c['mn'], c['mx']))
-        return _H(e, e.num_classes)
-    if op == 'onehotidx_mel':
+        h = _H(e, e.num_classes)
+    elif op == 'onehotidx_mel':
         e = ed.OneHotIndexEventSequenceEncoderDecoder(med.MelodyOneHotEncoding(c['mn'], c['mx']))
-        return _H(e, e.num_classes)
-    if op == 'lookback_mel':
-        e = ed.LookbackEventSequenceEncoderDecoder(med.MelodyOneHotEncoding(c['mn'], c['mx']), list(c['ds']), c['bits'])
-        return _H(e, e.num_classes)
-    if op == 'keymelody':
-        e = med.KeyMelodyEncoderDecoder(c['mn'], c['mx'], list(c['ds']), c['bits'])
-        return _H(e, e.num_classes)
-    if op == 'onehot_perf':
-        e = ed.OneHotEventSequenceEncoderDecoder(ped.PerformanceOneHotEncoding(c['nb'], c['ms'], c['minp'], c['maxp']))
-        return _H(e, e.num_classes, _pe, _pe_out)
-    if op == 'lookback_perf':
-        e = ed.LookbackEventSequenceEncoderDecoder(
-            ped.PerformanceOneHotEncoding(c['nb'], c['ms'], c['minp'], c['maxp']), list(c['ds']), c['bits'])
-        return _H(e, e.num_classes, _pe, _pe_out)
-    if op == 'modulo_perf':
-        e = ped.ModuloPerformanceEventSequenceEncoderDecoder(c['nb'], c['ms'])
-        return _H(e, e.num_classes, _pe, _pe_out)
-    if op == 'noteperf':
-        e = ped.NotePerformanceEventSequenceEncoderDecoder(c['nvb'], c['msh'], c['mdu'], c['minp'], c['maxp'])
-        return _H(e, list(e.num_classes), _npe, _npe_out, tuple, list)
-    if op == 'pianoroll':
-        e = pred.PianorollEncoderDecoder(c['size'])
-        return _H(e, e.num_classes, tuple, list, lab_out=_int_label)
-    raise ValueError(op)
+        h = _H(e, e.num_classes)
+    elif op == 'lookback_mel':
+        e = ed.LookbackEventSequenceEncoderDecoder(med.MelodyOneHotEncoding(c['mn'], c['mx']), **lbkw)
+        h = _H(e, e.num_classes)
+    elif op == 'keymelody':
+        e = med.KeyMelodyEncoderDecoder(c['mn'], c['mx'], **lbkw)
+        h = _H(e, e.num_classes)
+    elif op == 'onehot_perf':
+        e = ed.OneHotEventSequenceEncoderDecoder(perf())
+        h = _H(e, e.num_classes, _pe, _pe_out)
+    elif op == 'lookback_perf':
+        e = ed.LookbackEventSequenceEncoderDecoder(perf(), **lbkw)
+        h = _H(e, e.num_classes, _pe, _pe_out)
+    elif op == 'modulo_perf':
+        e = ped.ModuloPerformanceEventSequenceEncoderDecoder(**_kw(c, num_velocity_bins='nb', max_shift_steps='ms'))
+        h = _H(e, e.num_classes, _pe, _pe_out)
+    elif op == 'noteperf':
+        e = ped.NotePerformanceEventSequenceEncoderDecoder(c['nvb'], **_kw(c, max_shift_steps='msh', max_duration_steps='mdu',
+                                                                           min_pitch='minp', max_pitch='maxp'))
+        h = _H(e, list(e.num_classes), _npe, _npe_out, tuple, list)
+    elif op == 'pianoroll':
+        e = pred.PianorollEncoderDecoder(**_kw(c, input_size='size'))
+        h = _H(e, e.num_classes, tuple, list, lab_out=_int_label)
+    else:
+        raise ValueError(op)
+    h.ds_arg = lbkw.get('lookback_distances')       # the very list object handed to the constructor
+    h.ds_req = ds_req
+    return h
 
 
-def _bundle(h, es_w, ps, ls_w):
+def _cls(f):
+    try:
+        f()
+        return None
+    except Exception as ex:  # noqa
+        return type(ex).__name__
+
+
+_ALIVE = []          # earlier encoder objects kept alive and re-observed after later operations
+
+
+def _bundle(h, es_w, ps, ls_w, extra, as_melody=False):
     e = h.ed
     es = [h.ev_in(x) for x in es_w]
+    if as_melody:
+        from note_seq import melodies_lib
+        es = melodies_lib.Melody(es)          # the documented argument type of KeyMelodyEncoderDecoder
+    es_before = list(es)
     ls = [h.lab_in(x) for x in ls_w]
     out = [e.input_size, h.ncls, _opt(lambda: h.lab_out(e.default_event_label))]
     out.append([_opt(lambda: _vec(e.events_to_input(es, p))) for p in ps])
@@ -168,7 +239,7 @@ def _bundle(h, es_w, ps, ls_w):
     dec = []
     for p, l in zip(ps, labs):
         if 0 <= p < len(es) and l:
-            dec.append(_opt(lambda: h.ev_out(e.class_index_to_event(l[0], es[:p]))))
+            dec.append(_opt(lambda: h.ev_out(e.class_index_to_event(l[0], list(es)[:p]))))
         else:
             dec.append([])
     out.append(dec)
@@ -185,6 +256,54 @@ def _bundle(h, es_w, ps, ls_w):
         return [h.ev_out(x) for x in evs]
     out.append(_opt(gen))
     out.append(_opt(lambda: int(e.labels_to_num_steps(ls))))
+
+    # ---- not compared with the model: evaluated by the oracle only
+    # exception classes of the calls that raised
+    extra['exc'] = [[what, p, _cls(lambda: f(es, p))] for what, f, col in
+                    (('input', e.events_to_input, out[3]), ('label', e.events_to_label, out[4]))
+                    for p, r in zip(ps, col) if not r]
+    extra['encode_exc'] = _cls(lambda: e.encode(es)) if not out[6] else None
+    # the same calls a second time (after everything else ran), and after scribbling on a returned vector
+    unstable = []
+    for j, p in enumerate(ps[:3]):
+        r = _opt(lambda: e.events_to_input(es, p))
+        if r:
+            try:
+                r[0][0] = 99.0
+            except Exception:  # noqa  (empty vector)
+                pass
+        if _opt(lambda: _vec(e.events_to_input(es, p))) != out[3][j]:
+            unstable.append(['input', p])
+    labs2 = [_opt(lambda: e.events_to_label(es, p)) for p in ps]
+    labs2 = [[h.lab_out(l[0])] if l and _opt(lambda: h.lab_out(l[0])) else [] for l in labs2]
+    if labs2 != out[4]:
+        unstable.append(['label'])
+    if _opt(enc) != out[6]:
+        unstable.append(['encode'])
+    if [e.input_size, h.ncls if not isinstance(h.ncls, list) else list(e.num_classes)] != out[:2]:
+        unstable.append(['sizes'])
+    extra['unstable'] = unstable
+    # arguments are never modified (events, labels, the distance list handed to the constructor)
+    mutated = []
+    if list(es) != es_before:
+        mutated.append('events')
+    if ls != [h.lab_in(x) for x in ls_w]:
+        mutated.append('labels')
+    if h.ds_arg is not None and h.ds_arg != h.ds_req:
+        mutated.append('lookback_distances')
+    extra['mutated'] = mutated
+    # an encoder built earlier in this process still answers what it answered then
+    leak = []
+    for (e0, es0, p0, r0, tag) in _ALIVE[-2:]:
+        if _opt(lambda: _vec(e0.events_to_input(es0, p0))) + _opt(lambda: e0.events_to_label(es0, p0)) != r0:
+            leak.append(tag)
+    extra['leak'] = leak
+    if len(es) and not as_melody and h.lab_out is not _int_label:
+        p0 = len(es) - 1
+        _ALIVE.append((e, list(es), p0,
+                       _opt(lambda: _vec(e.events_to_input(es, p0))) + _opt(lambda: e.events_to_label(es, p0)),
+                       repr(type(e).__name__)))
+        del _ALIVE[:-6]
     return out
 
 
@@ -193,7 +312,8 @@ def _wrappers(c):
     (encoders only; not named by the property - checked on the implementation side only, no model)."""
     from note_seq import encoder_decoder as ed, melody_encoder_decoder as med
     oh = ed.OneHotEventSequenceEncoderDecoder(med.MelodyOneHotEncoding(c['mn'], c['mx']))
-    base = ed.LookbackEventSequenceEncoderDecoder(med.MelodyOneHotEncoding(c['mn'], c['mx']), list(c['ds']), c['bits'])
+    base = ed.LookbackEventSequenceEncoderDecoder(med.MelodyOneHotEncoding(c['mn'], c['mx']),
+                                                  **_kw(c, lookback_distances='ds', binary_counter_bits='bits'))
     return (oh, base, ed.OptionalEventSequenceEncoder(base),
             ed.MultipleEventSequenceEncoder([oh, base], encode_single_sequence=True),
             ed.MultipleEventSequenceEncoder([oh, base]))
@@ -202,7 +322,8 @@ def _wrappers(c):
 def _np_cfg(c):
     from note_seq import performance_encoder_decoder as ped
     try:
-        e = ped.NotePerformanceEventSequenceEncoderDecoder(c['nvb'], c['msh'], c['mdu'], c['minp'], c['maxp'])
+        e = ped.NotePerformanceEventSequenceEncoderDecoder(
+            c['nvb'], **_kw(c, max_shift_steps='msh', max_duration_steps='mdu', min_pitch='minp', max_pitch='maxp'))
     except AssertionError:
         return [2], None
     except ValueError:
@@ -213,29 +334,43 @@ def _np_cfg(c):
 
 # ---------------------------------------------------------------- implementation
 def impl(case):
+    main, extra = _impl(_eff_case(case))
+    return list(main) + [extra]              # the trailing dict is for the oracle only (see equal())
+
+
+def _split(io):
+    if isinstance(io, list) and io and isinstance(io[-1], dict):
+        return io[:-1], io[-1]
+    return io, {}
+
+
+def equal(case, a, b):
+    return _split(a)[0] == b
+
+
+def _impl(case):
     op, a = case['op'], case['input']
     c = a['cfg']
+    extra = {}
     if op == 'noteperf_cfg':
-        return _np_cfg(c)[0]
+        return _np_cfg(c)[0], extra
     if op == 'noteperf':
         cfg, e = _np_cfg(c)
         if e is None:
-            return [cfg]
+            return [cfg], extra
         h = _H(e, list(e.num_classes), _npe, _npe_out, tuple, list)
-        return [cfg, _bundle(h, a['es'], a['ps'], a['ls'])]
+        h.ds_arg = h.ds_req = None
+        return [cfg, _bundle(h, a['es'], a['ps'], a['ls'], extra)], extra
     if op == 'wrappers':
         oh, base, opt, m1, m2 = _wrappers(c)
         es, es2, dis, ps = a['es'], a['es2'], a['dis'], a['ps']
         tup = [(bool(d), e) for d, e in zip(dis, es)]
         return [opt.input_size, [_opt(lambda: _vec(opt.events_to_input(tup, p))) for p in ps],
                 m1.input_size, [_opt(lambda: _vec(m1.events_to_input(es, p))) for p in ps],
-                m2.input_size, [_opt(lambda: _vec(m2.events_to_input(list(zip(es, es2)), p))) for p in ps]]
+                m2.input_size, [_opt(lambda: _vec(m2.events_to_input(list(zip(es, es2)), p))) for p in ps]], extra
     if op == 'conditional':
-        from note_seq import encoder_decoder as ed, melody_encoder_decoder as med
-        ctl = ed.OneHotEventSequenceEncoderDecoder(med.MelodyOneHotEncoding(c['cmn'], c['cmx']))
-        tgt = ed.LookbackEventSequenceEncoderDecoder(med.MelodyOneHotEncoding(c['mn'], c['mx']), list(c['ds']), c['bits'])
-        e = ed.ConditionalEventSequenceEncoderDecoder(ctl, tgt)
-        cs, ts, ps, ls = a['cs'], a['es'], a['ps'], a['ls']
+        e, ctl, tgt = _conditional(c)
+        cs, ts, ps, ls = list(a['cs']), list(a['es']), a['ps'], a['ls']
         out = [e.input_size, e.num_classes, _opt(lambda: e.default_event_label)]
         out.append([_opt(lambda: _vec(e.events_to_input(cs, ts, p))) for p in ps])
         out.append([_opt(lambda: e.events_to_label(ts, p)) for p in ps])
@@ -252,12 +387,25 @@ def impl(case):
             return evs
         out.append(_opt(gen))
         out.append(_opt(lambda: int(e.labels_to_num_steps(ls))))
-        return out
-    return _bundle(_handle(op, c), a['es'], a['ps'], a['ls'])
+        extra['encode_exc'] = _cls(lambda: e.encode(cs, ts)) if not out[5] else None
+        extra['unstable'] = [['encode']] if _opt(enc) != out[5] else []
+        extra['mutated'] = [n for n, x, y in (('control', cs, a['cs']), ('target', ts, a['es'])) if x != list(y)]
+        return out, extra
+    h = _handle(op, c)
+    return _bundle(h, a['es'], a['ps'], a['ls'], extra, as_melody=bool(a.get('as_melody'))), extra
+
+
+def _conditional(c):
+    from note_seq import encoder_decoder as ed, melody_encoder_decoder as med
+    ctl = ed.OneHotEventSequenceEncoderDecoder(med.MelodyOneHotEncoding(c['cmn'], c['cmx']))
+    tgt = ed.LookbackEventSequenceEncoderDecoder(med.MelodyOneHotEncoding(c['mn'], c['mx']),
+                                                 **_kw(c, lookback_distances='ds', binary_counter_bits='bits'))
+    return ed.ConditionalEventSequenceEncoderDecoder(ctl, tgt), ctl, tgt
 
 
 # ---------------------------------------------------------------- model
 def model_input(case):
+    case = _eff_case(case)
     op, a = case['op'], case['input']
     c = a['cfg']
     if op == 'wrappers':
@@ -304,6 +452,7 @@ def _modulo_vec(layout, nb, ms):
 
 
 def model_output(case, m):
+    case = _eff_case(case)
     op, a = case['op'], case['input']
     if op == 'modulo_perf':
         c = a['cfg']
@@ -463,9 +612,117 @@ def _modulo_input_problem(sv, e, c):
     return None
 
 
+def _oracle_extra(case, extra):
+    """State across calls / aliasing / argument mutation (evaluated for every case, valid or not)."""
+    where = {'op': case['op'], 'cfg': case['input']['cfg']}
+    if extra.get('mutated'):
+        return dict(where, kind='argument-modified-by-the-call', which=extra['mutated'], events=case['input'].get('es'))
+    if extra.get('unstable'):
+        return dict(where, kind='second-call-on-the-same-arguments-differs', which=extra['unstable'],
+                    events=case['input'].get('es'))
+    if extra.get('leak'):
+        return dict(where, kind='earlier-encoder-object-changed-its-answer', which=extra['leak'])
+    return None
+
+
+def _expected_sizes(op, c):
+    """(input_size, num_classes) from the REQUESTED constructor arguments (documented layout)."""
+    k = len(c.get('ds', []))
+    if op in ('onehot_mel', 'onehotidx_mel', 'lookback_mel', 'keymelody'):
+        n = c['mx'] - c['mn'] + 2
+    if op in ('onehot_perf', 'lookback_perf', 'modulo_perf'):
+        n = 2 * (c.get('maxp', 127) - c.get('minp', 0) + 1) + c['ms'] + max(c['nb'], 0)
+    if op == 'onehot_mel' or op == 'onehot_perf':
+        return n, n
+    if op == 'onehotidx_mel':
+        return 1, n
+    if op in ('lookback_mel', 'lookback_perf'):
+        return n + k * n + c['bits'] + k, n + k
+    if op == 'keymelody':
+        nr = c['mx'] - c['mn']
+        return nr + 2 + 1 + 1 + k + c['bits'] + 1 + 12 + 12, nr + 2 + k
+    if op == 'modulo_perf':
+        return 5 + 5 + 3 + (3 if c['nb'] > 0 else 0), n
+    if op == 'pianoroll':
+        return c['size'], 2 ** c['size']
+    return None
+
+
+def _one_hot_row(l, n):
+    r = [0.0] * n
+    r[l] = 1.0
+    return r
+
+
+def _oracle_batch(case, h, es_w, ls_w, labs_at, ncls):
+    """get_inputs_batch / extend_event_sequences / evaluate_log_likelihood of the base class (the helpers the
+    generation loop really goes through), driven with deterministic one-hot soft-maxes."""
+    op = case['op']
+    where = {'op': op, 'cfg': case['input']['cfg']}
+    e = h.ed
+    es = [h.ev_in(x) for x in es_w]
+    n = len(es)
+    if n == 0:
+        return None
+    half = es[:max(1, n // 2)]
+    want_full = [[_vec(e.events_to_input(s_, i)) for i in range(len(s_))] for s_ in (es, half)]
+    got = _opt(lambda: [[_vec(v) for v in seq] for seq in e.get_inputs_batch([es, half], full_length=True)])
+    if got != [want_full]:
+        return dict(where, kind='get-inputs-batch-full-length', events=es_w)
+    got = _opt(lambda: [[_vec(v) for v in seq] for seq in e.get_inputs_batch([es, half])])
+    if got != [[[want_full[0][-1]], [want_full[1][-1]]]]:
+        return dict(where, kind='get-inputs-batch-last-event', events=es_w)
+    if es != [h.ev_in(x) for x in es_w]:
+        return dict(where, kind='argument-modified-by-the-call', which=['events (get_inputs_batch)'])
+    if op == 'pianoroll':
+        size = case['input']['cfg']['size']
+        seqs = [list(es), list(half)]
+        samples = [[1 if k in es_w[0] else 0 for k in range(size)], [0] * size]
+        r = _cls(lambda: e.extend_event_sequences(seqs, samples))
+        if r is not None or [h.ev_out(x) for x in seqs[0][n:]] != [sorted(es_w[0])] or list(seqs[1][len(half):]) != [()]:
+            return dict(where, kind='extend-event-sequences', events=es_w)
+        if _cls(lambda: e.extend_event_sequences([list(es)], samples)) != 'ValueError':
+            return dict(where, kind='wrong-exception-class', call='extend_event_sequences (unequal lengths)')
+        return None
+    # one label per sequence, both in range
+    cand = [l for l in ls_w if _in_range(l, ncls)][:2]
+    if len(cand) == 2:
+        l1, l2 = cand
+        seqs = [list(es), list(half)]
+        if isinstance(ncls, list):
+            softmax = [[[_one_hot_row(l1[i], m)], [_one_hot_row(l2[i], m)]] for i, m in enumerate(ncls)]
+        else:
+            softmax = [[_one_hot_row(l1, ncls)], [_one_hot_row(l2, ncls)]]
+        want = [h.ev_out(e.class_index_to_event(h.lab_in(l1), list(es))),
+                h.ev_out(e.class_index_to_event(h.lab_in(l2), list(half)))]
+        got = _opt(lambda: [list(map(int, x)) if isinstance(ncls, list) else int(x)
+                            for x in e.extend_event_sequences(seqs, softmax)])
+        if (got != [[l1, l2]] or len(seqs[0]) != n + 1 or len(seqs[1]) != len(half) + 1 or
+                [h.ev_out(seqs[0][-1]), h.ev_out(seqs[1][-1])] != want or seqs[0][:n] != es):
+            return dict(where, kind='extend-event-sequences', events=es_w, labels=[l1, l2], got=got)
+    # log-likelihood of the sequence under the soft-max that puts probability 1 on its own labels is log 1 = 0
+    if n >= 2 and all(labs_at.get(i) for i in range(1, n)):
+        rows = []
+        for i in range(1, n):
+            l = labs_at[i][0]
+            rows.append([_one_hot_row(l[j], m) for j, m in enumerate(ncls)] if isinstance(ncls, list) else _one_hot_row(l, ncls))
+        got = _opt(lambda: [float(x) for x in e.evaluate_log_likelihood([es], [rows])])
+        if got != [[0.0]]:
+            return dict(where, kind='log-likelihood-of-own-labels-is-not-zero', events=es_w, got=got)
+        first = rows[0]
+        if _cls(lambda: e.evaluate_log_likelihood([es], [rows + [first]])) != 'ValueError':
+            return dict(where, kind='wrong-exception-class', call='evaluate_log_likelihood (soft-max not shorter than events)')
+    return None
+
+
 def oracle(case, io):
+    case = _eff_case(case)
+    io, extra = _split(io)
     op, a = case['op'], case['input']
     c = a['cfg']
+    v = _oracle_extra(case, extra)
+    if v:
+        return v
     if op == 'noteperf_cfg':
         return _oracle_np_cfg(c, io)
     if op == 'noteperf':
@@ -474,7 +731,7 @@ def oracle(case, io):
             return v
         io = io[1]
     if op == 'conditional':
-        return _oracle_conditional(case, io)
+        return _oracle_conditional(case, io, extra)
     if op == 'wrappers':
         return _oracle_wrappers(case, io)
     es, ps, ls = a['es'], a['ps'], a['ls']
@@ -494,6 +751,28 @@ def oracle(case, io):
         return None
     allvalid = all(valid(e) for e in es)
     where = {'op': op, 'cfg': c}
+    # sizes follow from the REQUESTED constructor arguments (omitted ones at their documented defaults)
+    exp_sizes = _expected_sizes(op, c)
+    if exp_sizes is not None and [size, ncls] != list(exp_sizes):
+        return dict(where, kind='input-size-or-num-classes-not-what-the-arguments-say', got=[size, ncls],
+                    expected=list(exp_sizes))
+    # documented rejection: an event the wrapped one-hot encoding cannot encode raises ValueError, wherever it stands
+    if op in ('onehot_mel', 'onehotidx_mel', 'lookback_mel'):
+        encodable = valid
+    elif op in ('onehot_perf', 'lookback_perf', 'modulo_perf'):
+        encodable = lambda e: e[0] in (T_ON, T_OFF, T_SHIFT) or (e[0] == T_VEL and c['nb'] > 0)
+    else:
+        encodable = None
+    if encodable is not None:
+        bad_cls = {(w, p): k for w, p, k in extra.get('exc', [])}
+        for j, p in enumerate(ps):
+            if 0 <= p < len(es) and not encodable(es[p]):
+                if ins[j] or bad_cls.get(('input', p)) != 'ValueError':
+                    return dict(where, kind='unencodable-event-not-rejected-with-ValueError', call='events_to_input',
+                                position=p, events=es, got=bad_cls.get(('input', p)))
+                if op.startswith('onehot') and (labs[j] or bad_cls.get(('label', p)) != 'ValueError'):
+                    return dict(where, kind='unencodable-event-not-rejected-with-ValueError', call='events_to_label',
+                                position=p, events=es, got=bad_cls.get(('label', p)))
     blocks = _one_hot_blocks(op, c, ncls, size)
     # default_event_label: an in-range label that decodes (against an empty history) to the default event
     dflt = {'onehot_mel': NO_EVENT, 'onehotidx_mel': NO_EVENT, 'lookback_mel': NO_EVENT, 'keymelody': NO_EVENT,
@@ -595,6 +874,11 @@ def oracle(case, io):
                 return dict(where, kind='generation-from-encoded-labels-raises', events=es, exc=type(ex).__name__)
             if back != es:
                 return dict(where, kind='generation-from-encoded-labels-differs', events=es, got=back)
+        if len(es) <= 10 and (isinstance(ncls, list) or ncls <= 700 or op == 'pianoroll') and not a.get('as_melody'):
+            labs_at = {p: labs[j] for j, p in enumerate(ps)}
+            v = _oracle_batch(case, _handle_for(case), es, ls, labs_at, ncls)
+            if v:
+                return v
     # generation loop over arbitrary in-range labels
     if all(_in_range(l, ncls) for l in ls):
         if not gen:
@@ -605,6 +889,20 @@ def oracle(case, io):
             return dict(where, kind='labels-to-num-steps-raises', labels=ls, n_labels=len(ls))
         if steps[0] != _steps_of(op, gen[0]):
             return dict(where, kind='labels-to-num-steps-differs', labels=ls, got=steps[0], expected=_steps_of(op, gen[0]))
+        # two-step use: the generated sequence is itself a sequence; encoding it and decoding its labels gives it back
+        if len(gen[0]) >= 2 and all(valid(e) for e in gen[0]):
+            h = _handle_for(case)
+            g = [h.ev_in(x) for x in gen[0]]
+            try:
+                _, glabs = h.ed.encode(g)
+                evs = [g[0]]
+                for l in glabs:
+                    evs.append(h.ed.class_index_to_event(l, evs))
+                back = [h.ev_out(x) for x in evs]
+            except Exception as ex:  # noqa
+                return dict(where, kind='encode-of-generated-sequence-raises', labels=ls, exc=type(ex).__name__)
+            if back != gen[0]:
+                return dict(where, kind='generation-from-encoded-labels-differs', events=gen[0], got=back, two_step=True)
     return None
 
 
@@ -660,7 +958,7 @@ def _oracle_wrappers(case, io):
     return None
 
 
-def _oracle_conditional(case, io):
+def _oracle_conditional(case, io, extra):
     from note_seq import encoder_decoder as ed, melody_encoder_decoder as med
     a = case['input']
     c = a['cfg']
@@ -668,9 +966,11 @@ def _oracle_conditional(case, io):
         return None
     cs, ts, ps, ls = a['cs'], a['es'], a['ps'], a['ls']
     size, ncls, dlab, ins, labs, enc, gen, steps = io
-    ctl = ed.OneHotEventSequenceEncoderDecoder(med.MelodyOneHotEncoding(c['cmn'], c['cmx']))
-    tgt = ed.LookbackEventSequenceEncoderDecoder(med.MelodyOneHotEncoding(c['mn'], c['mx']), list(c['ds']), c['bits'])
+    _e, ctl, tgt = _conditional(c)
     where = {'op': 'conditional', 'cfg': c}
+    exp_t = _expected_sizes('lookback_mel', c)
+    if [size, ncls] != [c['cmx'] - c['cmn'] + 2 + exp_t[0], exp_t[1]]:
+        return dict(where, kind='input-size-or-num-classes-not-what-the-arguments-say', got=[size, ncls])
     if size != ctl.input_size + tgt.input_size:
         return dict(where, kind='conditional-input-size')
     if ncls != tgt.num_classes:
@@ -694,6 +994,8 @@ def _oracle_conditional(case, io):
     if len(cs) != len(ts):
         if enc:
             return dict(where, kind='conditional-encode-accepts-unequal-lengths', cs=cs, events=ts)
+        if extra.get('encode_exc') != 'ValueError':
+            return dict(where, kind='wrong-exception-class', call='encode (unequal lengths)', got=extra.get('encode_exc'))
     else:
         if not enc:
             return dict(where, kind='encode-raises', cs=cs, events=ts)
@@ -712,6 +1014,22 @@ def _oracle_conditional(case, io):
                 evs.append(tgt.class_index_to_event(l, evs))
             if evs != ts:
                 return dict(where, kind='generation-from-encoded-labels-differs', cs=cs, events=ts, got=evs)
+    # get_inputs_batch of the wrapper: control at p+1 ++ target at p, per sequence; control must be longer
+    if ts and len(ts) <= 10:
+        e = ed.ConditionalEventSequenceEncoderDecoder(ctl, tgt)
+        cs_long = list(ts) + [cs[-1] if cs else NO_EVENT] if len(cs) <= len(ts) else list(cs)
+        cs_long = [x if cv(x) else NO_EVENT for x in cs_long]
+        want = [_vec(list(ctl.events_to_input(cs_long, i + 1)) + list(tgt.events_to_input(ts, i))) for i in range(len(ts))]
+        got = _opt(lambda: [[_vec(v) for v in seq] for seq in e.get_inputs_batch([cs_long], [ts], full_length=True)])
+        if got != [[want]]:
+            return dict(where, kind='get-inputs-batch-full-length', cs=cs_long, events=ts)
+        got = _opt(lambda: [[_vec(v) for v in seq] for seq in e.get_inputs_batch([cs_long], [ts])])
+        if got != [[[want[-1]]]]:
+            return dict(where, kind='get-inputs-batch-last-event', cs=cs_long, events=ts)
+        if _cls(lambda: e.get_inputs_batch([list(ts)], [ts])) != 'ValueError':
+            return dict(where, kind='wrong-exception-class', call='get_inputs_batch (control not longer than target)')
+        if CHECK_CONDITIONAL_BATCH_COUNT_ERROR and _cls(lambda: e.get_inputs_batch([cs_long, cs_long], [ts])) != 'ValueError':
+            return dict(where, kind='wrong-exception-class', call='get_inputs_batch (different number of sequences)')
     if all(0 <= l < ncls for l in ls):
         if not gen or len(gen[0]) != len(ls):
             return dict(where, kind='generation-raises-on-in-range-labels', labels=ls)
@@ -721,6 +1039,7 @@ def _oracle_conditional(case, io):
 
 
 def nontrivial(case, io):
+    io = _split(io)[0]
     op = case['op']
     if op == 'noteperf_cfg':
         return io[0] == 0
@@ -752,10 +1071,12 @@ def _gen_dists(rng, maxd=12):
     return ds
 
 
-def _gen_seq(rng, alphabet, ds, maxlen, default=None):
+def _gen_seq(rng, alphabet, ds, maxlen, default=None, long=False):
     """Random sequence with repeats planted at the lookback distances (and runs of the default event)."""
     n = rng.choice([0, 1, 2, 3, 5, 8, 13, 21]) if rng.random() < 0.8 else rng.randint(0, maxlen)
-    n = min(n, maxlen)
+    if long:                      # default distances are 16 and 32: reach past them
+        n = rng.choice([17, 33, 40, 70])
+    n = min(n, max(maxlen, 40) if long else maxlen)
     es = []
     p_rep = rng.choice([0.0, 0.3, 0.6, 0.9])
     p_def = rng.choice([0.0, 0.2, 0.5])
@@ -780,9 +1101,16 @@ def _positions(rng, n):
     return ps
 
 
-def _labels(rng, ncls, maxn=12, p_bad=0.06):
-    k = rng.choice([0, 1, 2, 3, 6, maxn])
-    ls = [rng.randrange(ncls) if ncls > 0 else 0 for _ in range(k)]
+def _labels(rng, ncls, maxn=12, p_bad=0.06, lookbacks=0):
+    """Label lists for the generation loop; with lookback classes present, half of the labels are repeat labels and
+    some lists are longer than the distances, so that repeats of every listed distance are really taken."""
+    k = rng.choice([0, 1, 2, 3, 6, maxn] + ([20, 40] if lookbacks else []))
+    ls = []
+    for _ in range(k):
+        if lookbacks and rng.random() < 0.5:
+            ls.append(ncls - 1 - rng.randrange(lookbacks))
+        else:
+            ls.append(rng.randrange(ncls) if ncls > 0 else 0)
     if ls and rng.random() < p_bad:
         ls[rng.randrange(len(ls))] = rng.choice([-1, ncls, ncls + 3])
     return ls
@@ -798,6 +1126,9 @@ def _mel_alphabet(mn, mx, rng, p_bad=0.0):
 
 
 def _mel_cfg(rng):
+    if rng.random() < 0.3:
+        mn = rng.randint(0, 127)
+        return mn, rng.randint(mn + 1, 128)
     mn, mx = rng.choice([(48, 84), (0, 128), (60, 61), (0, 1), (127, 128), (21, 109), (0, 12), (59, 62)])
     return mn, mx
 
@@ -805,7 +1136,10 @@ def _mel_cfg(rng):
 def _perf_cfg(rng):
     nb = rng.choice([0, 0, 1, 8, 32, 127])
     ms = rng.choice([1, 2, 10, 100])
-    minp, maxp = rng.choice([(0, 127), (21, 108), (60, 60), (59, 62)])
+    minp, maxp = rng.choice([(0, 127), (21, 108), (60, 60), (59, 62), (0, 0), (127, 127)])
+    if rng.random() < 0.25:
+        minp = rng.randint(0, 127)
+        maxp = rng.randint(minp, 127)
     return nb, ms, minp, maxp
 
 
@@ -818,6 +1152,25 @@ def _perf_alphabet(rng, nb, ms, minp, maxp, p_bad=0.0):
         al.append(rng.choice([[T_VEL, 1 if nb == 0 else min(nb + 1, 127)], [T_DUR, 3], [T_SHIFT, ms + 1], [T_SHIFT, 0],
                               [T_ON, (maxp + 1) % 128]]))
     return al
+
+
+def _omit(rng, op, cfg, keys, p=0.12):
+    """Leave some constructor arguments out (each independently): the case stores None, the real constructor is then
+    called without that argument, and model / oracle use the documented default.  Returns the effective cfg."""
+    for k in keys:
+        if rng.random() < p:
+            cfg[k] = None
+    return _eff_case({'op': op, 'input': {'cfg': cfg}})['input']['cfg']
+
+
+def _clean_melody(es):
+    """What melodies_lib.Melody(es) holds: note-offs before the first note become no-events."""
+    out = list(es)
+    for i, e in enumerate(out):
+        if e not in (NO_EVENT, NOTE_OFF):
+            break
+        out[i] = NO_EVENT
+    return out
 
 
 def _case(op, cfg, es, ps, ls, **kw):
@@ -854,18 +1207,24 @@ def cases(rng, tier, n=None):
         if rng.random() < 0.03:
             ds = ds + [rng.choice([0, -1])]
         bits = rng.choice([0, 1, 2, 5, 7, 8]) if rng.random() < 0.97 else -1
-        es = _gen_seq(rng, _mel_alphabet(mn, mx, rng, 0.06), ds, maxlen, NO_EVENT)
-        out.append(_case('lookback_mel', {'mn': mn, 'mx': mx, 'ds': ds, 'bits': bits}, es, _positions(rng, len(es)),
-                         _labels(rng, mx - mn + 2 + len(ds))))
+        cfg = {'mn': mn, 'mx': mx, 'ds': ds, 'bits': bits}
+        eff = _omit(rng, 'lookback_mel', cfg, ['ds', 'bits'])
+        es = _gen_seq(rng, _mel_alphabet(mn, mx, rng, 0.06), eff['ds'], maxlen, NO_EVENT, long=cfg['ds'] is None)
+        out.append(_case('lookback_mel', cfg, es, _positions(rng, len(es)), _labels(rng, mx - mn + 2 + len(eff['ds']), lookbacks=len(eff['ds']))))
     for _ in range(160 * mult):          # key melody
         mn, mx = _mel_cfg(rng)
         ds = _gen_dists(rng)
         bits = rng.choice([0, 1, 2, 5, 7, 8])
-        es = _gen_seq(rng, _mel_alphabet(mn, mx, rng, 0.04), ds, 60, NO_EVENT)
+        cfg = {'mn': mn, 'mx': mx, 'ds': ds, 'bits': bits}
+        eff = _omit(rng, 'keymelody', cfg, ['ds', 'bits'])
+        es = _gen_seq(rng, _mel_alphabet(mn, mx, rng, 0.04), eff['ds'], 60, NO_EVENT, long=cfg['ds'] is None)
+        kw = {}
+        if rng.random() < 0.3 and all(-2 <= e <= 127 for e in es):
+            es = _clean_melody(es)               # handed over as a real melodies_lib.Melody object
+            kw['as_melody'] = True
         # positions outside the sequence are not generated for this encoder: with an empty distance list the code
         # neither raises nor means anything there (garbage in, garbage out), so an edit may legitimately change it
-        out.append(_case('keymelody', {'mn': mn, 'mx': mx, 'ds': ds, 'bits': bits}, es, list(range(len(es))),
-                         _labels(rng, mx - mn + 2 + len(ds))))
+        out.append(_case('keymelody', cfg, es, list(range(len(es))), _labels(rng, mx - mn + 2 + len(eff['ds']), lookbacks=len(eff['ds'])), **kw))
     for _ in range(70 * mult):           # plain one-hot and one-hot index
         mn, mx = _mel_cfg(rng)
         es = _gen_seq(rng, _mel_alphabet(mn, mx, rng, 0.08), [], maxlen)
@@ -875,23 +1234,27 @@ def cases(rng, tier, n=None):
         nb, ms, minp, maxp = _perf_cfg(rng)
         op = rng.choice(['onehot_perf', 'lookback_perf', 'lookback_perf', 'modulo_perf'])
         cfg = {'nb': nb, 'ms': ms, 'minp': minp, 'maxp': maxp}
-        ds = []
+        keys = ['nb', 'ms', 'minp', 'maxp']
         if op == 'modulo_perf':
-            minp, maxp = 0, 127
             cfg = {'nb': nb, 'ms': ms}
+            keys = ['nb', 'ms']
         if op == 'lookback_perf':
-            ds = _gen_dists(rng, 6)
-            cfg['ds'] = ds
+            cfg['ds'] = _gen_dists(rng, 6)
             cfg['bits'] = rng.choice([0, 3, 5])
+            keys += ['ds', 'bits']
+        eff = _omit(rng, op, cfg, keys)
+        nb, ms, minp, maxp, ds = eff['nb'], eff['ms'], eff.get('minp', 0), eff.get('maxp', 127), eff.get('ds', [])
         ncls = 2 * (maxp - minp + 1) + ms + nb + len(ds)
-        es = _gen_seq(rng, _perf_alphabet(rng, nb, ms, minp, maxp, 0.08), ds, 40, [T_SHIFT, ms])
-        out.append(_case(op, cfg, es, _positions(rng, len(es)), _labels(rng, ncls)))
+        es = _gen_seq(rng, _perf_alphabet(rng, nb, ms, minp, maxp, 0.08), ds, 40, [T_SHIFT, ms], long='ds' in cfg and cfg['ds'] is None)
+        out.append(_case(op, cfg, es, _positions(rng, len(es)), _labels(rng, ncls, lookbacks=len(ds))))
     for _ in range(90 * mult):           # note performance
         nvb = rng.choice([1, 4, 32, 127]) if rng.random() < 0.95 else 0
         msh = rng.choice([3, 7, 8, 11, 15, 99, 1000])
         mdu = rng.choice([4, 6, 9, 16, 100, 1000])
         minp, maxp = rng.choice([(0, 127), (21, 108), (60, 60)])
         cfg = {'nvb': nvb, 'msh': msh, 'mdu': mdu, 'minp': minp, 'maxp': maxp}
+        eff = _omit(rng, 'noteperf', cfg, ['msh', 'mdu', 'minp', 'maxp'], 0.1)
+        msh, mdu, minp, maxp = eff['msh'], eff['mdu'], eff['minp'], eff['maxp']
         al = []
         for _k in range(5):
             al.append([[T_SHIFT, rng.choice([0, msh, rng.randint(0, msh)])], [T_ON, rng.randint(minp, maxp)],
@@ -908,10 +1271,15 @@ def cases(rng, tier, n=None):
             ls[0][rng.randrange(6)] = -1
         out.append(_case('noteperf', cfg, es, _positions(rng, len(es)), ls))
     for s in (list(range(-1, 40)) if not thorough else list(range(-1, 400))):     # constructor: every small limit
-        out.append({'op': 'noteperf_cfg', 'input': {'cfg': {'nvb': 4, 'msh': s, 'mdu': 16, 'minp': 0, 'maxp': 127}}})
-        out.append({'op': 'noteperf_cfg', 'input': {'cfg': {'nvb': 4, 'msh': 15, 'mdu': s + 1, 'minp': 0, 'maxp': 127}}})
+        lo = rng.choice([0, 21, 60])
+        out.append({'op': 'noteperf_cfg', 'input': {'cfg': {'nvb': rng.choice([0, 1, 4, 127]), 'msh': s, 'mdu': rng.choice([16, 6, None]),
+                                                            'minp': lo, 'maxp': rng.choice([lo, 108, 127, None])}}})
+        out.append({'op': 'noteperf_cfg', 'input': {'cfg': {'nvb': rng.choice([0, 1, 4, 127]), 'msh': rng.choice([15, 8, None]), 'mdu': s + 1,
+                                                            'minp': rng.choice([0, None]), 'maxp': 127}}})
     for _ in range(90 * mult):           # pianoroll
-        size = rng.choice([0, 1, 2, 5, 8, 12, 88])
+        size = rng.choice([0, 1, 2, 3, 5, 8, 12, 64, 88])
+        pcfg = {'size': size}
+        size = _omit(rng, 'pianoroll', pcfg, ['size'], 0.08)['size']
         al = [sorted(rng.sample(range(size), rng.randint(0, min(size, 5)))) for _k in range(4)] + [[]]
         if rng.random() < 0.08:
             al.append(rng.choice([[size], [0, 0] if size else [0], [-1], [1, 0]]))
@@ -919,19 +1287,20 @@ def cases(rng, tier, n=None):
         ls = [rng.randrange(2 ** size) for _k in range(rng.choice([0, 1, 3, 6]))]
         if ls and rng.random() < 0.08:
             ls[0] = rng.choice([-1, 2 ** size])
-        out.append(_case('pianoroll', {'size': size}, es, _positions(rng, len(es)), ls))
+        out.append(_case('pianoroll', pcfg, es, _positions(rng, len(es)), ls))
     for _ in range(80 * mult):           # conditional wrapper
         cmn, cmx = _mel_cfg(rng)
         mn, mx = _mel_cfg(rng)
         ds = _gen_dists(rng)
         bits = rng.choice([0, 2, 5])
-        ts = _gen_seq(rng, _mel_alphabet(mn, mx, rng, 0.03), ds, 30, NO_EVENT)
+        ccfg = {'cmn': cmn, 'cmx': cmx, 'mn': mn, 'mx': mx, 'ds': ds, 'bits': bits}
+        ds = _omit(rng, 'conditional', ccfg, ['ds', 'bits'], 0.1)['ds']
+        ts = _gen_seq(rng, _mel_alphabet(mn, mx, rng, 0.03), ds, 40, NO_EVENT, long=ccfg['ds'] is None)
         r = rng.random()
         nc = len(ts) if r < 0.7 else len(ts) + 1 if r < 0.9 else max(len(ts) - 1, 0)
         cal = _mel_alphabet(cmn, cmx, rng, 0.03)
         cs = [rng.choice(cal) for _k in range(nc)]
-        out.append(_case('conditional', {'cmn': cmn, 'cmx': cmx, 'mn': mn, 'mx': mx, 'ds': ds, 'bits': bits}, ts,
-                         _positions(rng, len(ts)), _labels(rng, mx - mn + 2 + len(ds)), cs=cs))
+        out.append(_case('conditional', ccfg, ts, _positions(rng, len(ts)), _labels(rng, mx - mn + 2 + len(ds), lookbacks=len(ds)), cs=cs))
     for _ in range(25 * mult):           # encoder-only wrappers (implementation side only)
         mn, mx = _mel_cfg(rng)
         ds = _gen_dists(rng, 5)
@@ -942,8 +1311,8 @@ def cases(rng, tier, n=None):
                                                 'es2': es2, 'dis': [rng.random() < 0.3 for _k in es],
                                                 'ps': list(range(len(es)))}})
     out += _exhaustive(8, 6) if thorough else _exhaustive(4, 3)
+    rng.shuffle(out)            # different encoders / configurations interleaved in one process
     if n is not None:
-        rng.shuffle(out)
         out = out[:n]
     return out
 
@@ -965,6 +1334,18 @@ def corpus():
     out.append(_case('keymelody', {'mn': 0, 'mx': 12, 'ds': [3, 1], 'bits': 8}, [0, -2, -1, 0, 0, 11, 0], list(range(7)),
                      [12, 13, 14, 15, 0]))
     out.append(_case('pianoroll', {'size': 5}, [[0, 4], [], [0, 1, 2, 3, 4]], [0, 1, 2], [0, 31, 17]))
+    # explicit [] versus an omitted distance list (None -> the documented default [16, 32]) on a melody that repeats
+    # itself one bar back; omitted counter width; omitted sizes / limits of the other encoders
+    rep = [60, -2, 62, -1, 64, -2, -2, -1, 65, -2, 67, -1, 60, 62, 64, -1] * 3
+    for ds in ([], None, [16], [32, 16]):
+        out.append(_case('keymelody', {'mn': 48, 'mx': 84, 'ds': ds, 'bits': None}, rep, list(range(len(rep))), [0, 36, 37]))
+        out.append(_case('lookback_mel', {'mn': 48, 'mx': 84, 'ds': ds, 'bits': None}, rep, list(range(len(rep))), [0, 37, 38]))
+    out.append(_case('modulo_perf', {'nb': None, 'ms': 7}, [[T_SHIFT, 7], [T_ON, 60], [T_SHIFT, 1]], [0, 1, 2], [256, 262]))
+    out.append(_case('modulo_perf', {'nb': 3, 'ms': None}, [[T_SHIFT, 100], [T_VEL, 3], [T_OFF, 0]], [0, 1, 2], [355, 358]))
+    out.append(_case('pianoroll', {'size': None}, [[0, 87], [], [40]], [0, 1, 2], [0, 2 ** 87 + 1]))
+    out.append(_case('noteperf', {'nvb': 2, 'msh': None, 'mdu': None, 'minp': None, 'maxp': None},
+                     [[[T_SHIFT, 1000], [T_ON, 127], [T_VEL, 2], [T_DUR, 1000]], [[T_SHIFT, 0], [T_ON, 0], [T_VEL, 1], [T_DUR, 1]]],
+                     [0, 1], [[12, 76, 127, 1, 24, 39]]))
     return out
 
 
